@@ -50,6 +50,9 @@ def checkCycles (regular : Bool) (N : Nat) (rates : Array Int) (outs : List Int)
 /-- `dist <kind> <intervalNs> <steps> <rates> <rands>`;
 impl: `<intervalOutNs> <evals> <outs>` | `err` -/
 def dist (args impl : List String) : Option (String × String) := do
+  -- an optional sixth argument scripts the *timestamps* of the calls (late ticks, pauses); the property counts
+  -- cycles in calls, so the model does not look at it
+  let args := args.take 5
   match args with
   | [k, iv, steps, rates, rands] =>
     let iv ← iv.toInt?
